@@ -119,6 +119,9 @@ func TestRun(t *testing.T) {
 		w.jl(&journal.Ev{K: "cfg", Vb: -1, Raw: cj})
 		w.scn.Boot(w)
 		w.Run()
+		if os.Getenv("VERIF_DUMP_AT_END") != "" {
+			panic("SIMHARNESS: goroutine dump requested") // debugging aid: GOTRACEBACK=all prints every goroutine
+		}
 		os.Exit(0)
 	})
 	fmt.Fprintln(os.Stderr, "SIMHARNESS: bubble returned")
